@@ -126,6 +126,16 @@ class Realizer:
         self.preds = {"pos": lambda x: x > 0, "even": lambda x: x % 2 == 0, "any": lambda x: True}
         self.cache = {}
 
+    def real_twin(self, T, i):
+        """The same type written a second time (a second annotation): a new object for the outermost
+        constructor over the same members."""
+        keep = self.cache.pop(i, None)
+        try:
+            return self.real(T, i)
+        finally:
+            if keep is not None:
+                self.cache[i] = keep
+
     def real(self, T, i):
         if i in self.cache:
             return self.cache[i]
